@@ -45,7 +45,7 @@ Definition consume (k : N) (st : rstate) : rstate :=
 Definition buffer (st : rstate) : bytes :=
   match rd_chunks st with
   | None => rd_inp st
-  | Some c => firstn (N.to_nat (ch_left c)) (rd_inp st)
+  | Some c => firstn (N.to_nat (N.min (ch_left c) (N.of_nat (length (rd_inp st))))) (rd_inp st)
   end.
 
 Definition blen (b : bytes) : N := N.of_nat (length b).
